@@ -32,7 +32,12 @@ def handleSign (op : String) (a : Json) : Option Json :=
       some (Json.mkObj [
         ("results", Json.arr (r.2.map Json.str).toArray),
         ("keyids", Json.arr ((sigsOf r.1.md).map fun s => Json.str (S s.keyid)).toArray),
-        ("final_valid", Json.arr ((finalValid W0 r.1 pubOf).map Json.bool).toArray)])
+        ("final_valid", Json.arr ((finalValid W0 r.1 pubOf).map Json.bool).toArray),
+        -- what is signed at the end of the history: the canonical JSON of the content (Metablock) /
+        -- the stored payload member (envelope)
+        ("signable", match r.1.md with
+          | .legacy p _ => (match canonPayload p with | some c => Json.str (S c) | none => Json.null)
+          | .dsse _ b64 _ _ => Json.str (S b64))])
     | _ => some (Json.mkObj [("res", "unloadable")])
   | "keyops" =>
     let W0 := toWorld (fld a "world") 0
